@@ -727,3 +727,17 @@ package types
 //@     invariant 0 <= iter && iter <= len(vs.Validators)
 //@     invariant forall k int :: 0 <= k && k < iter ==> vs.Validators[k].ProposerPriority == max(-9223372036854775808, min(9223372036854775807, old(vs.Validators[k].ProposerPriority) - avgProposerPriority))
 //@     invariant forall k int :: iter <= k && k < len(vs.Validators) ==> vs.Validators[k].ProposerPriority == old(vs.Validators[k].ProposerPriority)
+
+// ---------------------------------------------------------------- C11: a transaction is signed over the hash its signer verifies
+// The hash a signer signs and recovers over (Homestead: the six payload fields; chain-id signer:
+// those plus the chain id).
+//@ spec func signerHashOf(s Signer, tx *Transaction) common.Hash
+//@ trusted func (s Signer) Hash(tx *Transaction) (r common.Hash)
+//@   ensures r == signerHashOf(s, tx)
+//@ trusted func (tx *Transaction) WithSignature(signer Signer, sig []byte) (r *Transaction, err error)
+// SignTx signs exactly the hash that Sender(signer, tx) will recover the sender from; otherwise the
+// signed transaction is attributed to an unrelated address.
+//@ func SignTx(signer Signer, tx *Transaction, prv *ecdsa.PrivateKey) (r *Transaction, err error)
+//@   for C11
+//@   modifies *
+//@   atcall Sign requires [signsTheHashItsSignerVerifies] len(hash) == 32 && (forall i int :: 0 <= i && i < 32 ==> hash[i] == signerHashOf(signer, tx)[i])
